@@ -171,7 +171,8 @@ func (d *Device) handleABSEvent(ie *input.InputEvent) {
 		}
 	}
 
-	if d.ccLearning && !(value < -0.5 || value > 0.5) {
+	if d.ccLearning && (analog.MappingType == config.AnalogCC || analog.MappingType == config.AnalogPitchBend) &&
+		!(value < -0.5 || value > 0.5) {
 		return
 	}
 
